@@ -130,7 +130,7 @@ extern "C" void h_char(void) {
     std::vector<std::string> data = mkstrings();
     EclOutput* out = make_writer(false);
 #if ELSZ > 8
-    char ty[5] = { 'C', '0', char('0' + ELSZ / 10), char('0' + ELSZ % 10), 0 };
+    char ty[5] = { 'C', char('0' + ELSZ / 100), char('0' + (ELSZ / 10) % 10), char('0' + ELSZ % 10), 0 };      // 'C' + three digits (C012 ... C128)
     out->write(std::string("CHARARR"), data, ELSZ); out->flushStream();
 #else
     const char* ty = "CHAR";
